@@ -22,9 +22,45 @@ try:
     out['cols'] = list(lex.cols)
     out['rows'] = list(lex.rows)
     out['langid'] = dig([lex[k, 'langid'] for k in sorted(lex._data)])
+    # an analysis that does not use the language-specific scorer, before that scorer exists ...
+    lex.cluster(method='sca', cluster_method='upgma', threshold=0.45, ref='scabefore', override=True)
+    sca_before = [lex[k, 'scabefore'] for k in sorted(lex._data)]
+    def sca_dist(obj):
+        # language-level distances from the sound-class alignments (rejects wordlists where two languages share no concept)
+        try:
+            return dig([[round(x, 9) for x in row] for row in obj.get_distances(method='sca')])
+        except ZeroDivisionError:
+            return 'rejected'
+    dist_before = sca_dist(lex)
     lex.get_scorer(runs=40, threshold=0.7)
     chars = sorted(lex.cscorer.chars2int)
     out['scorer'] = dig([[round(lex.cscorer[a, b], 9) for b in chars] for a in chars])
+    # ... and after it was computed: the same analysis on the same object must give the same result
+    lex.cluster(method='sca', cluster_method='upgma', threshold=0.45, ref='scaafter', override=True)
+    out['repeat:sca-cluster-after-get_scorer'] = sca_before == [lex[k, 'scaafter'] for k in sorted(lex._data)]
+    out['repeat:sca-distances-after-get_scorer'] = dist_before == sca_dist(lex)
+    # computing the scorer a second time on the same object with the same seed
+    random.seed(1234)
+    lex_r = LexStat(d)
+    lex_r.cluster(method='sca', cluster_method='upgma', threshold=0.45, ref='scabefore', override=True)
+    sca_dist(lex_r)
+    lex_r.get_scorer(runs=40, threshold=0.7)
+    first = [[round(lex_r.cscorer[a, b], 9) for b in chars] for a in chars]
+    random.seed(1234)
+    lex_r2 = LexStat(d)
+    lex_r2.cluster(method='sca', cluster_method='upgma', threshold=0.45, ref='scabefore', override=True)
+    sca_dist(lex_r2)
+    lex_r2.get_scorer(runs=40, threshold=0.7)
+    # same object, forced recomputation after re-seeding at the same point of the random stream
+    state = random.getstate()
+    random.seed(99)
+    lex_r2.get_scorer(runs=40, threshold=0.7, force=True)
+    a1 = [[round(lex_r2.cscorer[a, b], 9) for b in chars] for a in chars]
+    random.seed(99)
+    lex_r2.get_scorer(runs=40, threshold=0.7, force=True)
+    a2 = [[round(lex_r2.cscorer[a, b], 9) for b in chars] for a in chars]
+    random.setstate(state)
+    out['repeat:get_scorer(force=True) twice with the same seed'] = a1 == a2
     out['scorer_symmetric'] = all(lex.cscorer[a, b] == lex.cscorer[b, a] for a in chars for b in chars)
     for method, cm in (('turchin', 'upgma'), ('edit-dist', 'single'), ('sca', 'upgma'), ('lexstat', 'upgma'), ('lexstat', 'mcl'),
                        ('sca', 'link_clustering'), ('lexstat', 'complete')):
